@@ -31,6 +31,8 @@ def run(chk, tier, seed):
                               f'WcMatch({r["pattern"]!r}, flags={r["fl"]}) on tree {r["tree"]}: {kind}: {w}',
                               f"import sys; sys.path.insert(0, {REPO!r}); sys.path.insert(0, '/verif')\nfrom vlib.harness import trees, walkrun\n"
                               f"print(walkrun.kill_points(({r['tree']!r}, {specs[r['tree']]!r}, [({r['pattern']!r}, {r['flags']}, {r['skip_value']!r}, None)])))\nsys.exit(1)\n")
+    from checks import fixed_clauses
+    fixed_clauses.pending_iterators(chk)
     chk.rule = ('bounded stand-in / replay of the abort-protocol contract: for each (tree, pattern, flags) a recording subclass kills at every hook invocation k = 0..n, between every two '
                 'yielded results and before the start; checks: prefix of the uninterrupted result, nothing processed beyond the entry being processed, aborted until reset(), complete '
                 'result after reset(), identical repeated runs, on_reset once per run, skipped counter restarted, each file routed to exactly one of on_match/on_skip, on_error exactly '
